@@ -13,13 +13,23 @@ PID = "C06"
 CHARS = list("a01'\"\\/*#.+-(){}; \n@")
 
 
-def oracle(out, filename):
-    """None if fine, else a failure signature."""
+import re
+
+_DIRECTIVE_FILE = re.compile(r'^[ \t]*#[ \t]*(?:line[ \t]+)?\d+[ \t]+"([^"\n]*)"', re.M)
+
+
+def oracle(out, filename, text=None):
+    """None if fine, else a failure signature.  The location may name the file
+    given to parse() or any file named by a line directive of the text."""
     if out[0] in ("ok", "rec"):
         return None
     if out[0] == "perr":
         if core.perr_has_location(out[1], filename):
             return None
+        if text is not None and "#" in text:
+            for f in set(_DIRECTIVE_FILE.findall(text)):
+                if core.perr_has_location(out[1], f):
+                    return None
         return "perr-without-location"
     return out[1]
 
@@ -81,6 +91,41 @@ def _lit_work(task):
             if sig is not None:
                 fails.append((sig, {"text": s, "filename": "f.c"}, out[-1]))
     return n, fails, hist, nontrivial
+
+
+SPECIMENS = [
+    "int x;\n#pragma once",
+    "#pragma",
+    "int x;\n#line 7 \"f.h\"",
+    "int x;\n# 7 \"f.h\" 1 3",
+    "#line 7",
+    "void f(void){\n#pragma omp parallel for\n  for(;;) ; }\n_Pragma(\"x\")",
+    "char *s = \"abc\\n\" L\"d\"; int c = 'a' + L'\\0' + '\\x41';",
+    "struct S { int a : 3; unsigned : 0; } s = { .a = 1 }; enum E { A = 1, B } e;",
+    "int f(int a, ...) { switch (a) { case 1: default: break; } L: goto L; return sizeof(int[2]) + _Alignof(long); }",
+    "typedef int T; _Atomic(T) t; _Alignas(8) int v[3] = { [1] = 2 }; _Static_assert(1, \"m\");",
+    "double d = 1.5e3 + 0x1.8p1 + .5f; int k = 0x1F + 0b11 + 077 + 1ull;",
+]
+
+
+def _trunc_work(task):
+    """Every character-level prefix of a text (end of input can fall anywhere:
+    inside a directive, a literal, a token)."""
+    name, text = task
+    n = 0
+    fails = []
+    hist = {}
+    for k in range(len(text) + 1):
+        for fname in ("f.c",):
+            s = text[:k]
+            out = core.parse_outcome(s, fname)
+            n += 1
+            kk = out[0] if out[0] != "exc" else out[1]
+            hist[kk] = hist.get(kk, 0) + 1
+            sig = oracle(out, fname, s)
+            if sig is not None:
+                fails.append((sig, {"text": s, "filename": fname}, out[-1]))
+    return n, fails, hist
 
 
 def _edit_work(task):
@@ -202,6 +247,24 @@ def run(tier):
             R.fail_many(fl)
             merge(h)
 
+    # (b2) every character-level truncation of the specimens, the mini pool
+    # and the small corpus files
+    ttasks = [(f"specimen{i}", t) for i, t in enumerate(SPECIMENS)]
+    try:
+        from models import mini_pool
+
+        ttasks += [(f"mini{i}", t) for i, t in enumerate(mini_pool.PROGRAMS)]
+    except ImportError:
+        pass
+    ttasks += [(nm, corpus.strip_linemarkers(t)) for nm, t in corpus.corpus("quick") if len(t) < (4000 if quick else 40000)]
+    trunc_runs = 0
+    for n, fl, h in core.pmap(_trunc_work, ttasks, chunksize=1):
+        trunc_runs += n
+        R.fail_many(fl)
+        merge(h)
+    char_runs += trunc_runs
+    R.set("truncation_runs", trunc_runs)
+
     # (c2) literal-shaped strings through the parser
     LL = 4 if quick else 5
     for n, fl, h, nt in core.pmap(_lit_work, [(c, LL) for c in LIT_CHARS], chunksize=1):
@@ -244,6 +307,6 @@ def replay(rep):
     out = core.parse_outcome(c["text"], c.get("filename", ""))
     print("input:", repr(c["text"]))
     print("outcome:", out[:1] + out[1:][:2] if out[0] != "ok" else "FileAST")
-    sig = oracle(out, c.get("filename", ""))
+    sig = oracle(out, c.get("filename", ""), c["text"])
     print("oracle:", sig or "fine")
     return 1 if sig else 0
